@@ -121,17 +121,17 @@ func (a *application) stop(force bool, timeout time.Duration) error {
 		}
 	}
 
-	a.registerAppRoute() // new state of the app
-
-	// update mode to prevent triggering 'permantent' mode
-	a.mode = gen.ApplicationModeTemporary
-
 	// the reason must be known before the first member terminates
 	if force {
 		a.reason = gen.TerminateReasonKill
 	} else {
 		a.reason = gen.TerminateReasonShutdown
 	}
+
+	a.registerAppRoute() // new state of the app
+
+	// update mode to prevent triggering 'permantent' mode
+	a.mode = gen.ApplicationModeTemporary
 
 	// do not kill while iterating: killing a sleeping process terminates it
 	// synchronously and re-enters a.group (terminate -> LoadAndDelete)
@@ -176,6 +176,10 @@ func (a *application) terminate(pid gen.PID, reason error) {
 		if atomic.CompareAndSwapInt32(&a.state, int32(gen.ApplicationStateRunning),
 			int32(gen.ApplicationStateStopping)) == false {
 			// already in stopping (or stopped by a member that terminated concurrently)
+			if a.reason == nil {
+				// a stop request that has not got to recording its reason yet
+				a.reason = reason
+			}
 			break
 		}
 		a.node.Log().Info("application %s (%s) will be stopped due to termination of %s with reason: %s", a.spec.Name, a.mode, pid, reason)
@@ -194,6 +198,10 @@ func (a *application) terminate(pid gen.PID, reason error) {
 		if atomic.CompareAndSwapInt32(&a.state, int32(gen.ApplicationStateRunning),
 			int32(gen.ApplicationStateStopping)) == false {
 			// already in stopping (or stopped by a member that terminated concurrently)
+			if a.reason == nil {
+				// a stop request that has not got to recording its reason yet
+				a.reason = reason
+			}
 			break
 		}
 		a.reason = reason
